@@ -433,4 +433,22 @@ def Entry.needsFit : Entry → Bool
   | .fit | .gridsearch | .fitQuantile | .poissonFit | .poissonGridsearch => false
   | _ => true
 
+/-- the data arguments of an entry point (as in its Python signature) -/
+inductive DataArg where
+  | X | y | weights | exposure | sampleAtX
+  deriving Repr, DecidableEq
+
+def Entry.args : Entry → List DataArg
+  | .predict | .predictMu | .predictProba | .confidenceIntervals | .predictionIntervals
+  | .partialDependence => [.X]
+  | .fit | .devianceResiduals | .loglikelihood | .score | .gridsearch | .fitQuantile => [.X, .y, .weights]
+  | .accuracy | .logisticScore => [.X, .y]
+  | .sample => [.X, .y, .sampleAtX, .weights]
+  | .poissonFit | .poissonLoglikelihood | .poissonGridsearch => [.X, .y, .exposure, .weights]
+  | .poissonPredict => [.X, .exposure]
+
+/-- the model can serve the entry point: it is fitted (hence its parameters validated) when the entry point needs a fit -/
+def Ready (e : Entry) (m : Model) : Prop :=
+  e.needsFit = true → (m.isFitted = true ∧ m.validated = true)
+
 end PyGam.Validate
